@@ -14,4 +14,5 @@ func init() {
 	bindProp("C16", "H1")
 	bindProp("C19", "H1")
 	bindProp("C20", "H1")
+	bindProp("C18", "H4")
 }
